@@ -45,6 +45,7 @@ const char *VERN[] = {"default", "tls1.0", "tls1.1", "tls1.2", "tls1.3"};
 struct ClientCell
 {
   int verify = 1, anchor = 0, srv = 0, host = 0, clock = 0, ver = 0, kind = 0, early = 0;
+  int lax = 0; // iora side configured as permissively as its API allows: ciphers ALL:@SECLEVEL=0, minVersion TLS 1.0 (the floor must still hold)
 };
 
 bool clientAllowed(const ClientCell &c, std::string &why)
@@ -89,7 +90,7 @@ std::string cellName(const ClientCell &c)
 {
   std::ostringstream o;
   o << "verify=" << c.verify << " anchor=" << ANCHOR[c.anchor] << " srv=" << SRV[c.srv] << " target=" << (c.host ? "localhost" : "127.0.0.1") << " clock=" << (c.clock == 0 ? "inside" : c.clock == 1 ? "before" : "after")
-    << " peermax=" << VERN[c.ver] << " kind=" << c.kind << " early=" << c.early;
+    << " peermax=" << VERN[c.ver] << " kind=" << c.kind << " early=" << c.early << " lax=" << c.lax;
   return o.str();
 }
 
@@ -118,7 +119,8 @@ ClientCell chooseClientCell(bool thorough)
     {
       c.clock = mc_choose(3, MC_FREE);
       c.ver = mc_choose(5, MC_FREE);
-      c.early = mc_choose(2, MC_FREE);
+      c.early = mc_choose(3, MC_FREE);
+      c.lax = mc_choose(2, MC_FREE);
     }
   }
   else
@@ -128,11 +130,14 @@ ClientCell chooseClientCell(bool thorough)
     if (dim == 0)
       c.clock = 1 + mc_choose(2, MC_FREE);
     else if (dim == 1)
+    {
       c.ver = 1 + mc_choose(4, MC_FREE);
+      c.lax = mc_choose(2, MC_FREE);
+    }
     else if (dim == 2)
       c.kind = 1 + mc_choose(2, MC_FREE);
     else
-      c.early = 1;
+      c.early = 1 + mc_choose(2, MC_FREE);
   }
   return c;
 }
@@ -153,6 +158,7 @@ void clientSide(bool thorough)
   pc.maxVersion = VERS[c.ver];
   pc.kind = tp::PeerKind(c.kind);
   pc.toSend = PEERDATA;
+  pc.holdHandshake = c.early == 2; // the peer sits on the ClientHello until the application has issued its send
   tp::Peer peer(pc);
   peer.start(9443);
   mc_quiesce();
@@ -167,6 +173,11 @@ void clientSide(bool thorough)
   cfg.clientTls.verifyPeer = c.verify != 0;
   if (c.anchor != 2)
     cfg.clientTls.caFile = C((std::string(ANCHOR[c.anchor]) + ".pem").c_str());
+  if (c.lax)
+  {
+    cfg.clientTls.ciphers = "ALL:@SECLEVEL=0";
+    cfg.clientTls.minVersion = TLS1_VERSION;
+  }
   auto t = Transport::tcp(cfg);
   bool connected = false, closed = false;
   std::string inbound;
@@ -181,8 +192,15 @@ void clientSide(bool thorough)
     return;
   }
   auto r = t->connect(c.host ? "localhost" : "127.0.0.1", 9443, TlsMode::Client);
-  if (r.isOk() && c.early)
+  if (r.isOk() && c.early == 1)
     t->send(r.value(), iora::core::BufferView{(const uint8_t *)MARKER, strlen(MARKER)});
+  if (r.isOk() && c.early == 2)
+  {
+    mc_quiesce(); // TCP connection established, ClientHello on the wire, handshake in progress
+    t->send(r.value(), iora::core::BufferView{(const uint8_t *)MARKER, strlen(MARKER)});
+    mc_quiesce();
+    peer.release();
+  }
   mc_quiesce(300ull * 1000000ull);
   if (connected && !c.early && !closed)
     t->send(sid, iora::core::BufferView{(const uint8_t *)MARKER, strlen(MARKER)});
@@ -199,7 +217,7 @@ void clientSide(bool thorough)
     version = pcn.version;
     peerDone = pcn.handshakeDone;
     peerApp = pcn.appIn;
-    wire = simk_peer_txlog(pcn.fd);
+    wire = pcn.wire();
   }
   mc_obs("%s -> connected=%d closed=%d peerHandshake=%d version=%x marker-at-peer=%d allowed=%d", name.c_str(), int(connected), int(closed), int(peerDone), version, int(peerApp.find(MARKER) != std::string::npos), int(allowed));
   if (connected && !allowed)
@@ -207,7 +225,7 @@ void clientSide(bool thorough)
   if (!inbound.empty() && !allowed)
     mc_violation("client-auth", "client:data-delivered-despite:" + why, "peer data reached the application although the session must not be established: " + why + " (" + name + ")");
   if (wire.find(MARKER) != std::string::npos)
-    mc_violation("no-cleartext", std::string("client:marker-in-clear:") + (c.early ? "early-send" : "send-after-connect") + ":kind" + std::to_string(c.kind), "the application bytes appear in clear text on the wire (" + name + ")");
+    mc_violation("no-cleartext", std::string("client:marker-in-clear:") + (c.early == 2 ? "send-during-handshake" : c.early ? "early-send" : "send-after-connect") + ":kind" + std::to_string(c.kind), "the application bytes appear in clear text on the wire (" + name + ")");
   if (connected && version && version < TLS1_2_VERSION)
     mc_violation("tls12-floor", "client:negotiated-below-tls12", "negotiated protocol version 0x" + std::to_string(version) + " (" + name + ")");
   t->stop();
@@ -218,7 +236,7 @@ void clientSide(bool thorough)
 // ---------------------------------------------------------------- iora server  <->  independent client
 struct ServerCell
 {
-  int require = 0, cli = 0, ver = 0, kind = 0;
+  int require = 0, cli = 0, ver = 0, kind = 0, lax = 0;
 };
 const char *CLI[] = {"none", "cli_ok", "cli_b"};
 
@@ -232,8 +250,9 @@ void serverSide()
   c.cli = mc_choose(3, MC_FREE);
   c.ver = mc_choose(5, MC_FREE);
   c.kind = mc_choose(3, MC_FREE);
+  c.lax = (c.ver == 1 || c.ver == 2) ? mc_choose(2, MC_FREE) : 0;
   std::ostringstream o;
-  o << "require-client-cert=" << c.require << " client-cert=" << CLI[c.cli] << " peermax=" << VERN[c.ver] << " kind=" << c.kind;
+  o << "require-client-cert=" << c.require << " client-cert=" << CLI[c.cli] << " peermax=" << VERN[c.ver] << " kind=" << c.kind << " lax=" << c.lax;
   std::string name = o.str();
   TransportConfig cfg;
   cfg.enableHighResolutionTimers = false;
@@ -247,6 +266,11 @@ void serverSide()
   {
     cfg.serverTls.verifyPeer = true;
     cfg.serverTls.caFile = C("ca_a.pem");
+  }
+  if (c.lax)
+  {
+    cfg.serverTls.ciphers = "ALL:@SECLEVEL=0";
+    cfg.serverTls.minVersion = TLS1_VERSION;
   }
   auto t = Transport::tcp(cfg);
   std::string inbound;
@@ -275,7 +299,7 @@ void serverSide()
   bool admitAllowed = c.kind == 0 && !(c.ver == 1 || c.ver == 2) && (!c.require || c.cli == 1);
   std::string why = c.kind ? (c.kind == 1 ? "plaintext-peer" : "garbage-peer") : (c.ver == 1 || c.ver == 2) ? std::string("peer-ceiling-") + VERN[c.ver] : std::string("client-cert-") + CLI[c.cli];
   int version = peer.conns.empty() ? 0 : peer.conns[0].version;
-  std::string wire = peer.conns.empty() ? "" : simk_peer_txlog(peer.conns[0].fd);
+  std::string wire = peer.conns.empty() ? "" : peer.conns[0].wire();
   mc_obs("%s -> inbound=%zu peerHandshake=%d version=%x admitAllowed=%d", name.c_str(), inbound.size(), int(!peer.conns.empty() && peer.conns[0].handshakeDone), version, int(admitAllowed));
   if (!inbound.empty() && !admitAllowed)
     mc_violation(c.kind ? "only-tls" : ((c.ver == 1 || c.ver == 2) ? "tls12-floor" : "server-auth"), "server:data-admitted-despite:" + why, "peer bytes reached the application although they must not: " + why + " (" + name + ")");
@@ -330,7 +354,7 @@ void httpClientSide()
   mc_quiesce(100ull * 1000000ull);
   std::string why;
   bool allowed = clientAllowed(c, why);
-  std::string wire = peer.conns.empty() ? "" : simk_peer_txlog(peer.conns[0].fd);
+  std::string wire = peer.conns.empty() ? "" : peer.conns[0].wire();
   bool reqAtPeer = !peer.conns.empty() && peer.conns[0].appIn.find(MARKER) != std::string::npos;
   mc_obs("%s -> response=%d request-at-peer=%d allowed=%d", name.c_str(), int(got), int(reqAtPeer), int(allowed));
   if ((got || reqAtPeer) && !allowed)
